@@ -448,6 +448,40 @@ def step {C} (s : St C) : Op → St C
 
 def runOps {C} (s : St C) (ops : List Op) : St C := ops.foldl step s
 
+/-! ### One pass of the archiver service -/
+
+/-- The options of `treadmill sproc trace cleanup` that reach the archiver functions. -/
+structure PassOpts where
+  traceBatch  : Int
+  traceExpire : Int
+  traceHist   : Int
+  finBatch    : Int
+  finExpire   : Int
+  finHist     : Int
+
+/-- One pass of the loop, in the order of `sproc/trace.py` (`prune_trace_evictions` and
+    `prune_trace_service_events`, which delete by design, are outside the model). -/
+def passPhases (o : PassOpts) : List Phase :=
+  [.trace o.traceBatch o.traceExpire, .finished o.finBatch o.finExpire, .prune .trace o.traceHist,
+   .prune .finished o.finHist, .server o.traceBatch, .prune .server o.traceHist]
+
+/-- Run phases in order.  `stop = some (i, k)`: phases before number `i` run to completion, phase `i`
+    is cut at its write `k`, nothing runs after it.  A phase that raises ends the run. -/
+def runPhases {C} (now : Dec) : St C → List Phase → Option (Nat × Nat) → St C
+  | s, [], _ => s
+  | s, ph :: _, some (0, k) => (runPhase s now ph (some k)).1
+  | s, ph :: t, some (i + 1, k) =>
+    match runPhase s now ph none with
+    | (s', .error _) => s'
+    | (s', _) => runPhases now s' t (some (i, k))
+  | s, ph :: t, none =>
+    match runPhase s now ph none with
+    | (s', .error _) => s'
+    | (s', _) => runPhases now s' t none
+
+def runPass {C} (s : St C) (now : Dec) (o : PassOpts) (stop : Option (Nat × Nat)) : St C :=
+  runPhases now s (passPhases o) stop
+
 /-! ### The concrete codec the driver and the examples use -/
 
 /-- Identity codec: a blob is the table name and the rows, or junk. -/
